@@ -46,7 +46,9 @@ class Lin:
 
 
 class Heap:
-    def __init__(self):
+    def __init__(self, record_fields=None):
+        self.record_fields = record_fields or {}   # pointer-typed local/param name -> list of field names (for `*a = *b`)
+        self.all_fields = sorted({f for v in self.record_fields.values() for f in v})
         self.vars = {}          # local name -> Lin
         self.fields = {}        # (object symbol, field) -> Lin
         self.log = []           # (kind, detail) events in order
@@ -83,6 +85,11 @@ class Heap:
             return Lin.sym("NEW%d" % len([1 for k in self.log if k[0] == "alloc"]))
         return None
 
+    @staticmethod
+    def _is_deref(n):
+        n = strip_casts(n)
+        return n is not None and n.k == "UnaryOperator" and n.op == "*"
+
     def store(self, l, val, where):
         l = strip_casts(l)
         if l.k == "DeclRefExpr":
@@ -115,6 +122,17 @@ class Heap:
                             self.vars[d.name] = v
                             if strip_casts(d.c[0]).k == "CallExpr":
                                 self.log.append(("alloc", d.name))
+            elif k == "BinaryOperator" and s.op == "=" and self._is_deref(s.c[0]) and self._is_deref(s.c[1]):
+                # struct copy  *a = *b : every field of the record is copied
+                a = self.eval(strip_casts(s.c[0]).c[0])
+                b = self.eval(strip_casts(s.c[1]).c[0])
+                ao, bo = (a.single() if a is not None else None), (b.single() if b is not None else None)
+                if ao is None or bo is None or not self.all_fields:
+                    self.log.append(("opaque", unparse(s)))
+                else:
+                    for f in self.all_fields:
+                        self.fields[(ao, f)] = self.load_field(bo, f)
+                    self.log.append(("copy", (ao, bo, s.line)))
             elif k in ("BinaryOperator", "CompoundAssignOperator") and s.op in ("=", "+=", "-="):
                 v = self.eval(s.c[1])
                 if s.op != "=":
